@@ -60,6 +60,10 @@ class Delimited(Harness):
                     out.append(dict(fmt=fmt, rows=rows, header=["#comment line", "#x"], crlf=False))
                 if fmt == "bed6" and all(r[4] == 1 for r in rows):
                     out.append(dict(fmt=fmt, rows=rows, score_dots=True))
+        # the '.' placeholder in some records only (a score column mixing '.' and numbers is well-formed)
+        for dots in ([0], [1], [0, 2], [2]):
+            rows = [[1, 1, 1, 1, 1 if r in dots else 2, 1] for r in range(3)]
+            out.append(dict(fmt="bed6", rows=rows, score_dots=dots))
         return out
 
     def inputs(self, skel, V):
